@@ -47,6 +47,8 @@ def c01_runs(tier):
     r = []
     r += per_method('fd', ms, ['fd.in-handler-ran', 'fd.out-handler-ran'], K=2, R=2, acts=A_UNREG | A_REG, A=2,
                     L=2 if q else 3, symtruth=0, wr=1, patterns=2, order=1)
+    r += per_method('fd.err-only', [0, 1], ['fd.err-handler-ran'], K=1 if q else 2, R=3, acts=A_UNREG | A_SETH | A_REG,
+                    A=2, L=2, symtruth=2, patterns=5)
     r += per_method('timer', [0] if q else [0, 3], ['timer.handler-ran'], K=0, T=3, R=2, acts=A_TIMER, A=2,
                     L=2 if q else 3, symtruth=0, symtime=4)
     r += per_method('task', [1] if q else [1, 2], ['task.handler-ran'], K=0, J=3, R=2, acts=A_TASK, A=2,
@@ -72,6 +74,10 @@ def c02_runs(tier):
     q = tier == 'quick'
     r = per_method('handlers', [0, 1, 2, 3], ['fd.in-handler-ran', 'fd.out-handler-ran', 'loop.sleeps-with-nothing-ready'],
                    K=2, R=2, acts=A_UNREG | A_SETH, A=1, L=1 if q else 2, symtruth=1, patterns=3)
+    # two operations in a row on a set of several descriptors (slot bookkeeping of the poll methods,
+    # pending-notification list of the epoll methods), readiness concrete
+    r += per_method('two-ops', [0, 2, 3] if q else [0, 1, 2, 3], ['fd.in-handler-ran'], K=3, R=2,
+                    acts=A_UNREG | A_SETH, A=2, L=2, symtruth=0, wr=1, patterns=2)
     r += per_method('level', [0, 3] if q else [0, 1, 2, 3], ['fd.in-handler-ran', 'fd.err-handler-ran'],
                     K=1, R=3, acts=A_SETH, A=1, L=2, symtruth=2, persist=1, patterns=3)
     return r
@@ -306,6 +312,8 @@ def work_runs(tier, hb=0):
         mt_run('continuation.put-late', h, base + ['work.continuation-from-worker', 'work.pool-released',
                                                    'work.two-items-in-parallel'],
                preempt=1 if q else 2, W=3, max=2, put=3, cont=1, burst=2, hb=hb),
+        mt_run('continuation.owner-busy', h, base + ['work.continuation-from-worker', 'work.two-items-in-parallel'],
+               preempt=3, W=3, max=2, put=3, cont=1, burst=2, gap=1, hb=hb),
         mt_run('saturated.max1', h, base + ['work.quiescent'], preempt=p2, W=3, max=1, put=0, hb=hb),
         mt_run('null-pool', h, ['work.loop-returned-and-everything-released'], preempt=0, W=2, nullpool=1, hb=hb),
         mt_run('iv_thread', h, ['thread.joined-and-released'], preempt=2 if q else 3, threadtest=1, hb=hb),
